@@ -53,10 +53,18 @@ RULES = [
 
 
 def sh(cmd, cwd=None, timeout=3600):
+    import signal
+    p = subprocess.Popen(cmd, shell=True, cwd=cwd, stdout=subprocess.PIPE, stderr=subprocess.STDOUT, text=True, start_new_session=True)
     try:
-        p = subprocess.run(cmd, shell=True, cwd=cwd, stdout=subprocess.PIPE, stderr=subprocess.STDOUT, text=True, timeout=timeout)
-        return p.returncode, p.stdout
+        out, _ = p.communicate(timeout=timeout)
+        return p.returncode, out
     except subprocess.TimeoutExpired:
+        # the whole process group: a mutant can make rustc (a proc macro) or a test spin forever
+        try:
+            os.killpg(p.pid, signal.SIGKILL)
+        except OSError:
+            pass
+        p.communicate()
         return 124, "timeout"
 
 
@@ -97,6 +105,24 @@ def gen(a):
             if st.startswith("*") or st.startswith("/*") or st.startswith("help =") or st.startswith("reason ="):
                 continue
             typey = bool(re.search(r"\b(impl|where|dyn|fn|type|struct|enum|trait|pub use)\b", code)) or st.endswith(":") or ": " in st and st.endswith(",") and "(" not in st
+            # structural mutants: a dropped statement, a negated condition, two swapped arguments
+            if a.structural and not typey:
+                st2 = code.rstrip()
+                extra = []
+                if re.match(r"^\s*(self|state|stack|genome|rng|[a-z_]+)\.[\w\.:<>]+\([^;{}]*\)\??;\s*$", st2) and "let " not in st2 and "return" not in st2:
+                    extra.append((re.sub(r"\S.*$", "", code) + "{}", "drop statement"))
+                m = re.match(r"^(\s*(?:\} else )?if )(?!let )(.+) \{\s*$", st2)
+                if m:
+                    extra.append((f"{m.group(1)}!({m.group(2)}) {{", "negate condition"))
+                for m in re.finditer(r"\((\w+), (\w+)\)", code):
+                    if m.group(1) != m.group(2) and code[:m.start()].count('"') % 2 == 0 and not re.search(r"\|\s*$", code[:m.start()]):
+                        extra.append((code[:m.start()] + f"({m.group(2)}, {m.group(1)})" + code[m.end():], "swap arguments"))
+                for new, rule in extra:
+                    new = new + ln[len(code):]
+                    if new != ln and (n, new) not in seen:
+                        seen.add((n, new))
+                        mine.append({"properties": anchored[f], "file": f, "line": n, "old": ln, "new": new, "rule": rule})
+                continue
             for pat, rep in RULES:
                 if typey and pat in (r" \+ ", r" - ", r" \* ", r" < ", r" > ", r" <= ", r" >= "):
                     continue
@@ -262,6 +288,7 @@ def main():
     ap.add_argument("--tier", default="quick")
     ap.add_argument("--redo", action="store_true")
     ap.add_argument("--append", action="store_true")
+    ap.add_argument("--structural", action="store_true", help="dropped statements / negated conditions / swapped arguments instead of the token rules")
     ap.add_argument("--prefix", default="a")
     a = ap.parse_args()
     {"gen": gen, "test": test, "check": check, "report": report}[a.cmd](a)
